@@ -58,10 +58,10 @@ theorem fallback_flat (s : Bool) (n f : Nat) (hn : 0 < n) (hf0 : f ≠ 0) (a b :
   simp only [hf0, if_false, hiLo, shrI, hH, hlh, hll, hrh, hrl,
     wrapI_of_in hn h1, wrapI_of_in hn h2, wrapI_of_in hn h3, wrapU_wrapI, wrapU_of_in h4, hc1h, hc1l,
     wrapI_of_in hn h5]
-  rw [uadd_ok hn h6, Outcome.ok_false_bind]
+  rw [uadd_ok hn h6, Outcome.ok_false_bindF]
   simp only [hcc, hc2h, hc2l]
-  rw [shiftLoUpUnsigned_ok s n c2l H hH hc2l0 hc2l1 h7, Outcome.ok_false_bind,
-    uadd_ok hn h8, Outcome.ok_false_bind, uadd_ok hn h9, Outcome.ok_false_bind,
-    shiftLoUp_ok s n carry H hH hH2 hn h10 h11, Outcome.ok_false_bind, uadd_ok hn h12, Outcome.ok_false_bind]
+  rw [shiftLoUpUnsigned_ok s n c2l H hH hc2l0 hc2l1 h7, Outcome.ok_false_bindF,
+    uadd_ok hn h8, Outcome.ok_false_bindF, uadd_ok hn h9, Outcome.ok_false_bindF,
+    shiftLoUp_ok s n carry H hH hH2 hn h10 h11, Outcome.ok_false_bindF, uadd_ok hn h12, Outcome.ok_false_bindF]
 
 end Sfx
